@@ -76,8 +76,9 @@ Qed.
 Lemma in_dom_nonnil d x : match d with DEnum _ => False | _ => True end ->
   in_dom d x = true -> is_nil x = false.
 Proof.
-  destruct d; cbn [in_dom]; intros T H; [| |contradiction].
+  destruct d; cbn [in_dom]; intros T H; [| | |contradiction].
   - apply negb_true_iff in H. exact H.
+  - destruct (dec x) eqn:E; [|discriminate]. destruct x; [discriminate|reflexivity].
   - destruct (dec x) eqn:E; [|discriminate]. destruct x; [discriminate|reflexivity].
 Qed.
 
@@ -88,15 +89,15 @@ Lemma conv_inf_ok_rt r x :
 Proof.
   intros Hok Hd Hin. pose proof (in_dom_nonnil _ _ Hd Hin) as Hnn.
   unfold attr_rt. destruct r as [nm c e sh d]; cbn [a_conv a_emit a_dom] in *.
-  destruct d; [| |contradiction].
+  destruct d; [| | |contradiction].
   - (* DAny: only CStr *)
     destruct c; cbn [conv_inf_ok] in Hok; try discriminate.
     cbn [conv_in conv_out]. rewrite aval_eqvb_refl, andb_true_r.
-    destruct e; cbn [emits is_vnone truthy negb]; try reflexivity. rewrite Hnn. reflexivity.
+    destruct e; cbn [emits is_fnone truthy negb]; try reflexivity. rewrite Hnn. reflexivity.
   - cbn [in_dom] in Hin. destruct (dec x) as [n|] eqn:E; [|discriminate].
     destruct c; cbn [conv_inf_ok] in Hok; try discriminate.
     + cbn [conv_in conv_out]. rewrite aval_eqvb_refl, andb_true_r.
-      destruct e; cbn [emits is_vnone truthy negb]; try reflexivity. rewrite Hnn. reflexivity.
+      destruct e; cbn [emits is_fnone truthy negb]; try reflexivity. rewrite Hnn. reflexivity.
     + cbn [conv_in]. unfold int_in. rewrite E. cbn [conv_out]. rewrite (aval_eqvb_dec _ _ E), andb_true_r.
       destruct e; try discriminate; reflexivity.
     + cbn [conv_in]. unfold int_in. rewrite E. cbn [conv_out]. rewrite (aval_eqvb_dec _ _ E), andb_true_r.
@@ -104,48 +105,99 @@ Proof.
     + destruct x as [|c0 x']; [discriminate|]. cbn [conv_in]. unfold int_in. rewrite E. cbn [conv_out].
       rewrite (aval_eqvb_dec _ _ E), andb_true_r.
       destruct e; try discriminate; reflexivity.
+  - (* DDecPos: the value is not 0, so a truthiness guard lets it through *)
+    cbn [in_dom] in Hin. destruct (dec x) as [n|] eqn:E; [|discriminate].
+    apply negb_true_iff in Hin.
+    destruct c; cbn [conv_inf_ok] in Hok; try discriminate.
+    + cbn [conv_in conv_out]. rewrite aval_eqvb_refl, andb_true_r.
+      destruct e; cbn [emits is_fnone truthy negb]; try reflexivity. rewrite Hnn. reflexivity.
+    + cbn [conv_in]. unfold int_in. rewrite E. cbn [conv_out]. rewrite (aval_eqvb_dec _ _ E), andb_true_r.
+      destruct e; cbn [emits is_fnone truthy negb]; try reflexivity. rewrite Hin. reflexivity.
+    + cbn [conv_in]. unfold int_in. rewrite E. cbn [conv_out]. rewrite (aval_eqvb_dec _ _ E), andb_true_r.
+      destruct e; cbn [emits is_fnone truthy negb]; try reflexivity. rewrite Hin. reflexivity.
+    + destruct x as [|c0 x']; [discriminate|]. cbn [conv_in]. unfold int_in. rewrite E. cbn [conv_out].
+      rewrite (aval_eqvb_dec _ _ E), andb_true_r.
+      destruct e; cbn [emits is_fnone truthy negb]; try reflexivity. rewrite Hin. reflexivity.
+    + cbn [conv_in]. rewrite E, Hin. cbn [conv_out]. rewrite (aval_eqvb_dec _ _ E), andb_true_r.
+      destruct e; cbn [emits is_fnone truthy negb]; try reflexivity. rewrite Hin. reflexivity.
 Qed.
 
+Definition not_parent (c : conv) : bool := match c with CParent _ => false | _ => true end.
+
+Definition attr_lossless0 (r : arule) : bool :=
+  match a_shape r with ShReq => true | _ => attr_rt r None end &&
+  match a_dom r with
+  | DEnum l => forallb (fun x => attr_rt r (Some x)) l
+  | d => conv_inf_ok (a_conv r) (a_emit r) d
+  end.
+
+Lemma attr_lossless_np r : not_parent (a_conv r) = true -> attr_lossless r = attr_lossless0 r.
+Proof. unfold attr_lossless, attr_lossless0. destruct (a_conv r); try reflexivity. discriminate. Qed.
+
+Lemma conv_out_e_np c env v : not_parent c = true -> conv_out_e c env v = conv_out c v.
+Proof. destruct c; try reflexivity. discriminate. Qed.
+
 Lemma attr_lossless_present r x :
-  attr_lossless r = true -> in_dom (a_dom r) x = true -> attr_rt r (Some x) = true.
+  attr_lossless0 r = true -> in_dom (a_dom r) x = true -> attr_rt r (Some x) = true.
 Proof.
-  unfold attr_lossless. intros H Hin. apply andb_true_iff in H. destruct H as [_ H].
+  unfold attr_lossless0. intros H Hin. apply andb_true_iff in H. destruct H as [_ H].
   destruct (a_dom r) eqn:Ed.
+  - apply conv_inf_ok_rt; rewrite ?Ed; auto.
   - apply conv_inf_ok_rt; rewrite ?Ed; auto.
   - apply conv_inf_ok_rt; rewrite ?Ed; auto.
   - cbn [in_dom] in Hin. apply mem_In in Hin. rewrite forallb_forall in H. apply H. exact Hin.
 Qed.
 
 Lemma attr_lossless_absent r :
-  attr_lossless r = true -> a_shape r <> ShReq -> attr_rt r None = true.
+  attr_lossless0 r = true -> a_shape r <> ShReq -> attr_rt r None = true.
 Proof.
-  unfold attr_lossless. intros H Hs. apply andb_true_iff in H. destruct H as [H _].
+  unfold attr_lossless0. intros H Hs. apply andb_true_iff in H. destruct H as [H _].
   destruct (a_shape r); [congruence| exact H | exact H].
 Qed.
 
+(* the parent's attributes as written (eout) and as received (ein) agree up to number
+   normalisation *)
+Definition env_rel (eout ein : list (str * aval)) : Prop :=
+  forall k, oa_eqvb (lookup k eout) (lookup k ein) = true.
+
 (* result of one rule on a matching node: either nothing is written and the node had no such
    attribute, or one pair is written, equivalent to the node's *)
-Lemma attr_one r attrs :
-  attr_lossless r = true -> attr_matches attrs r = true ->
-  exists v out, get_attr r attrs = Some v /\ put_attr r v = Some out /\
+Lemma attr_one r ein eout attrs :
+  env_rel eout ein -> attr_lossless r = true -> attr_matches ein attrs r = true ->
+  exists v out, get_attr r attrs = Some v /\ put_attr r eout v = Some out /\
     ((out = [] /\ lookup (a_name r) attrs = None) \/
      (exists a x, out = [(a_name r, a)] /\ lookup (a_name r) attrs = Some (AStr x) /\
                   aval_eqvb a (AStr x) = true)).
 Proof.
-  intros Hl Hm. unfold attr_matches in Hm. unfold get_attr, lookup_s, put_attr.
+  intros Henv Hl Hm. destruct (not_parent (a_conv r)) eqn:Enp.
+  2:{ (* copied from the parent *)
+    destruct (a_conv r) as [| | | | | | | | | |k] eqn:Ec; try discriminate Enp.
+    unfold attr_lossless in Hl. rewrite Ec in Hl.
+    destruct (a_shape r) eqn:Es; try discriminate Hl. destruct (a_emit r) eqn:Ee; try discriminate Hl.
+    unfold attr_matches in Hm. rewrite Ec, Es in Hm.
+    unfold get_attr, lookup_s, put_attr. rewrite Ec, Ee.
+    destruct (lookup (a_name r) attrs) as [[x|n|]|] eqn:El; try discriminate.
+    apply andb_true_iff in Hm. destruct Hm as [_ Hm].
+    destruct (lookup k ein) as [[y|n|]|] eqn:Ek; try discriminate.
+    apply str_eqb_eq in Hm. subst y.
+    specialize (Henv k). rewrite Ek in Henv. cbn [conv_in conv_out_e emits].
+    destruct (lookup k eout) as [a|]; [|discriminate Henv]. cbn [oa_eqvb] in Henv.
+    exists FNone, [(a_name r, a)]. repeat split. right. exists a, x. auto. }
+  rewrite (attr_lossless_np _ Enp) in Hl.
+  unfold attr_matches in Hm. unfold get_attr, lookup_s, put_attr.
   destruct (lookup (a_name r) attrs) as [[x|n|]|] eqn:El; try discriminate.
-  - apply andb_true_iff in Hm. destruct Hm as [Hin _].
+  - apply andb_true_iff in Hm. destruct Hm as [Hm _]. apply andb_true_iff in Hm. destruct Hm as [Hin _].
     pose proof (attr_lossless_present _ _ Hl Hin) as Hrt. unfold attr_rt in Hrt.
     destruct (conv_in (a_conv r) (Some x)) as [v|] eqn:Ei; [|discriminate].
     destruct (conv_out (a_conv r) v) as [a|] eqn:Eo; [|discriminate].
     apply andb_true_iff in Hrt. destruct Hrt as [He Ha].
-    exists v, [(a_name r, a)]. rewrite Eo, He. repeat split. right. exists a, x. auto.
+    exists v, [(a_name r, a)]. rewrite (conv_out_e_np _ _ _ Enp), Eo, He. repeat split. right. exists a, x. auto.
   - assert (Hs : a_shape r <> ShReq) by (destruct (a_shape r); congruence).
     pose proof (attr_lossless_absent _ Hl Hs) as Hrt. unfold attr_rt in Hrt.
     destruct (conv_in (a_conv r) None) as [v|] eqn:Ei; [|discriminate].
     destruct (conv_out (a_conv r) v) as [a|] eqn:Eo; [|discriminate].
     apply negb_true_iff in Hrt.
-    exists v, []. rewrite Eo, Hrt. repeat split. left. auto.
+    exists v, []. rewrite (conv_out_e_np _ _ _ Enp), Eo, Hrt. repeat split. left. auto.
 Qed.
 
 (* ------------------------------------------------------------------ all attributes *)
@@ -163,19 +215,19 @@ Proof.
   destruct (str_eqb k k') eqn:E; [apply str_eqb_eq in E; subst; tauto | apply IH; tauto].
 Qed.
 
-Lemma attrs_all rs attrs :
-  NoDup (names rs) -> forallb attr_lossless rs = true -> forallb (attr_matches attrs) rs = true ->
-  exists va out, get_attrs rs attrs = Some va /\ put_attrs rs va = Some out /\
+Lemma attrs_all rs ein eout attrs : env_rel eout ein ->
+  NoDup (names rs) -> forallb attr_lossless rs = true -> forallb (attr_matches ein attrs) rs = true ->
+  exists va out, get_attrs rs attrs = Some va /\ put_attrs rs eout va = Some out /\
     (forall k, In k (map fst out) -> In k (names rs)) /\
     NoDup (map fst out) /\
     (forall k, In k (names rs) -> oa_eqvb (lookup k out) (lookup k attrs) = true).
 Proof.
-  induction rs as [|r rs IH]; intros Hnd Hl Hm.
+  intros Henv. induction rs as [|r rs IH]; intros Hnd Hl Hm.
   - exists [], []. cbn. repeat split; try tauto; try constructor.
   - cbn [forallb] in Hl, Hm. apply andb_true_iff in Hl, Hm. destruct Hl as [Hl1 Hl2], Hm as [Hm1 Hm2].
     cbn [names map] in Hnd. apply NoDup_cons_iff in Hnd. destruct Hnd as [Hni Hnd].
     destruct (IH Hnd Hl2 Hm2) as (va & out & Hg & Hp & Hsub & Hnd' & Heq).
-    destruct (attr_one r attrs Hl1 Hm1) as (v & o1 & Hg1 & Hp1 & Hcase).
+    destruct (attr_one r ein eout attrs Henv Hl1 Hm1) as (v & o1 & Hg1 & Hp1 & Hcase).
     exists (v :: va), (o1 ++ out). cbn [get_attrs put_attrs]. rewrite Hg1, Hg, Hp1, Hp.
     assert (Hno : lookup (a_name r) out = None).
     { apply lookup_notin. intros I. apply Hsub in I. exact (Hni I). }
@@ -201,14 +253,14 @@ Proof.
   specialize (H _ I). cbn [fst] in H. apply mem_In in H. exact (Hn H).
 Qed.
 
-Lemma attrs_eqv rs attrs :
+Lemma attrs_eqv rs ein eout attrs : env_rel eout ein ->
   nodupb (names rs) = true -> forallb attr_lossless rs = true ->
-  forallb (attr_matches attrs) rs = true -> keys_in attrs (names rs) = true ->
-  exists va out, get_attrs rs attrs = Some va /\ put_attrs rs va = Some out /\
-    NoDup (map fst out) /\ (forall k, oa_eqvb (lookup k out) (lookup k attrs) = true).
+  forallb (attr_matches ein attrs) rs = true -> keys_in attrs (names rs) = true ->
+  exists va out, get_attrs rs attrs = Some va /\ put_attrs rs eout va = Some out /\
+    NoDup (map fst out) /\ env_rel out attrs.
 Proof.
-  intros Hnd Hl Hm Hk. apply nodupb_NoDup in Hnd.
-  destruct (attrs_all rs attrs Hnd Hl Hm) as (va & out & Hg & Hp & Hsub & Hnd' & Heq).
+  intros Henv Hnd Hl Hm Hk. apply nodupb_NoDup in Hnd.
+  destruct (attrs_all rs ein eout attrs Henv Hnd Hl Hm) as (va & out & Hg & Hp & Hsub & Hnd' & Heq).
   exists va, out. repeat split; auto. intros k.
   destruct (mem k (names rs)) eqn:Ek.
   - apply Heq. apply mem_In. exact Ek.
@@ -217,12 +269,72 @@ Proof.
 Qed.
 
 (* ------------------------------------------------------------------ data *)
-Lemma data_rt d data : data_matches d data = true ->
-  exists v, get_data d data = Some v /\ put_data d v = Some data.
+Lemma be32_be_val a b c e :
+  a <? 256 = true -> b <? 256 = true -> c <? 256 = true -> e <? 256 = true ->
+  be_val [a; b; c; e] <? 4294967296 = true /\ be32 (be_val [a; b; c; e]) = [a; b; c; e].
 Proof.
-  destruct d, data as [b|]; cbn [data_matches get_data put_data]; intros H; try discriminate;
-    try (eexists; split; reflexivity).
-  rewrite H. eexists; split; reflexivity.
+  intros Ha Hb Hc He. unfold be_val, be32. cbn [fold_left].
+  set (n := (((0 * 256 + a) * 256 + b) * 256 + c) * 256 + e).
+  assert (Hn : n = a * 16777216 + b * 65536 + c * 256 + e) by (unfold n; lia).
+  split; [lia|].
+  assert (E1 : n / 16777216 = a) by lia.
+  assert (E2 : (n / 65536) mod 256 = b) by lia.
+  assert (E3 : (n / 256) mod 256 = c) by lia.
+  assert (E4 : n mod 256 = e) by lia.
+  rewrite E1, E2, E3, E4. reflexivity.
+Qed.
+
+Lemma be32_wf n : n <? 4294967296 = true -> bytes_ok (be32 n) = true.
+Proof.
+  intros H. unfold bytes_ok, be32. cbn [forallb].
+  assert (n / 16777216 <? 256 = true) as -> by lia.
+  assert ((n / 65536) mod 256 <? 256 = true) as -> by lia.
+  assert ((n / 256) mod 256 <? 256 = true) as -> by lia.
+  assert (n mod 256 <? 256 = true) as -> by lia.
+  reflexivity.
+Qed.
+
+Section Lens.
+Variable PL : paylens.
+Hypothesis HPL : pl_lossless PL.
+
+Lemma deqv_refl t d : deqv PL t d d.
+Proof. left. reflexivity. Qed.
+
+Lemma data_rt tags t d data :
+  data_lossless tags d = true -> tag_ok tags t = true -> data_matches PL d data = true ->
+  exists v dd, get_data PL d data = Some v /\ put_data PL d v = Some dd /\ deqv PL t dd data.
+Proof.
+  intros Hdl Ht H. destruct d.
+  - (* DNone *) destruct data; cbn [data_matches] in H; [discriminate|].
+    exists VNone, None. repeat split. apply deqv_refl.
+  - (* DBytes *) destruct data as [b|]; [exists (VBytes b), (Some b) | exists VNone, None];
+      repeat split; apply deqv_refl.
+  - (* DUtf8 *) destruct data as [b|]; cbn [data_matches] in H; [|discriminate].
+    exists (VBytes b), (Some b). cbn [get_data put_data]. rewrite H. repeat split. apply deqv_refl.
+  - (* DBytesNE *) destruct data as [b|]; cbn [data_matches] in H; [|discriminate].
+    apply negb_true_iff in H. exists (VBytes b), (Some b). cbn [get_data put_data]. rewrite H.
+    repeat split. apply deqv_refl.
+  - (* DByte *) destruct data as [[|c [|c' b]]|]; cbn [data_matches] in H; try discriminate.
+    exists (VInt c), (Some [c]). cbn [get_data put_data]. rewrite H. repeat split. apply deqv_refl.
+  - (* DBe32 *)
+    destruct data as [[|a [|b [|c [|e [|x l]]]]]|]; cbn [data_matches] in H; try discriminate.
+    unfold bytes_ok in H. cbn [forallb] in H.
+    apply andb_true_iff in H. destruct H as [Ha H]. apply andb_true_iff in H. destruct H as [Hb H].
+    apply andb_true_iff in H. destruct H as [Hc H]. apply andb_true_iff in H. destruct H as [He _].
+    destruct (be32_be_val a b c e Ha Hb Hc He) as [Hlt Hrt].
+    exists (VInt (be_val [a; b; c; e])), (Some [a; b; c; e]). cbn [get_data put_data].
+    rewrite Hlt, Hrt. repeat split. apply deqv_refl.
+  - (* DConst *) destruct data as [b|]; cbn [data_matches] in H; [|discriminate].
+    apply str_eqb_eq in H. subst c. exists VNone, (Some b). repeat split. apply deqv_refl.
+  - (* DPayload *) destruct data as [b|]; cbn [data_matches] in H; [|discriminate].
+    destruct (HPL b H) as (a & b' & Hg & Hp & He).
+    exists (VPay a), (Some b'). cbn [get_data put_data]. rewrite Hg, Hp. repeat split.
+    right. split.
+    + cbn [data_lossless] in Hdl. apply andb_true_iff in Hdl. destruct Hdl as [Hne Hall].
+      unfold tag_ok in Ht. apply negb_true_iff in Hne. rewrite Hne in Ht. cbn [orb] in Ht.
+      rewrite forallb_forall in Hall. apply Hall. apply mem_In. exact Ht.
+    + exists b', b. auto.
 Qed.
 
 (* ------------------------------------------------------------------ children *)
@@ -231,13 +343,13 @@ Scheme schema_mind := Induction for schema Sort Prop
 Combined Scheme schema_krules_ind from schema_mind, krules_mind.
 
 Definition lens_ok (c : schema) : Prop :=
-  forall n, matches c n = true ->
-  exists v n', get c n = Some v /\ put c v = Some n' /\ neqv n' n.
+  forall ein eout n, env_rel eout ein -> matches PL c ein n = true ->
+  exists v n', get PL c n = Some v /\ put PL c eout v = Some n' /\ neqv PL n' n.
 
 Definition lens_ok_kids (ks : krules) : Prop :=
-  forall kids, matches_kids ks kids = true ->
-  exists vs kids', get_kids ks kids = Some vs /\ put_kids ks vs = Some kids' /\
-                   Forall2 neqv kids' kids.
+  forall ein eout kids, env_rel eout ein -> matches_kids PL ks ein kids = true ->
+  exists vs kids', get_kids PL ks kids = Some vs /\ put_kids PL ks eout vs = Some kids' /\
+                   Forall2 (neqv PL) kids' kids.
 
 Lemma span_app p l a b : span p l = (a, b) -> l = a ++ b.
 Proof.
@@ -249,24 +361,26 @@ Proof.
     + apply pair_inj in H. destruct H; subst. reflexivity.
 Qed.
 
-Lemma list_lens c pre : lens_ok c -> forallb (matches c) pre = true ->
-  exists vl pre', mapM (get c) pre = Some vl /\ mapM (put c) vl = Some pre' /\ Forall2 neqv pre' pre.
+Lemma list_lens c ein eout pre : env_rel eout ein -> lens_ok c ->
+  forallb (matches PL c ein) pre = true ->
+  exists vl pre', mapM (get PL c) pre = Some vl /\ mapM (put PL c eout) vl = Some pre' /\
+                  Forall2 (neqv PL) pre' pre.
 Proof.
-  intros Hc. induction pre as [|x pre IH]; cbn [forallb]; intros H.
+  intros Henv Hc. induction pre as [|x pre IH]; cbn [forallb]; intros H.
   - exists [], []. cbn. repeat split. constructor.
   - apply andb_true_iff in H. destruct H as [H1 H2].
-    destruct (Hc x H1) as (v & x' & Hg & Hp & He).
+    destruct (Hc ein eout x Henv H1) as (v & x' & Hg & Hp & He).
     destruct (IH H2) as (vl & pre' & Hg' & Hp' & He').
     exists (v :: vl), (x' :: pre'). cbn [mapM]. rewrite Hg, Hg', Hp, Hp'. repeat split. constructor; assumption.
 Qed.
 
-Lemma get_not_vnone c n v : get c n = Some v -> is_vnone v = false.
+Lemma get_not_vnone c n v : get PL c n = Some v -> is_vnone v = false.
 Proof.
   destruct c as [tags ars d ks], n as [t attrs data kids]. cbn [get].
-  destruct (mem t tags); [|discriminate].
+  destruct (tag_ok tags t); [|discriminate].
   destruct (get_attrs ars attrs); [|discriminate].
-  destruct (get_data d data); [|discriminate].
-  destruct (get_kids ks kids); [|discriminate].
+  destruct (get_data PL d data); [|discriminate].
+  destruct (get_kids PL ks kids); [|discriminate].
   intros H. apply Some_inj in H. subst v. reflexivity.
 Qed.
 
@@ -277,81 +391,88 @@ Proof.
   apply schema_krules_ind.
   - (* SNode *)
     intros tags ars d ks IHks Hl. cbn [lossless] in Hl.
-    apply andb_true_iff in Hl. destruct Hl as [Hl Hlk]. apply andb_true_iff in Hl. destruct Hl as [Hnd Hla].
-    intros [t attrs data kids] Hm. cbn [matches] in Hm.
+    apply andb_true_iff in Hl. destruct Hl as [Hl Hlk]. apply andb_true_iff in Hl. destruct Hl as [Hl Hld].
+    apply andb_true_iff in Hl. destruct Hl as [Hnd Hla].
+    intros ein eout [t attrs data kids] Henv Hm. cbn [matches] in Hm.
     apply andb_true_iff in Hm. destruct Hm as [Hm Hmk].
     apply andb_true_iff in Hm. destruct Hm as [Hm Hmd].
     apply andb_true_iff in Hm. destruct Hm as [Hm Hma].
     apply andb_true_iff in Hm. destruct Hm as [Hm Hki].
     apply andb_true_iff in Hm. destruct Hm as [Hmt Hnda].
-    destruct (attrs_eqv ars attrs Hnd Hla Hma Hki) as (va & out & Hga & Hpa & Hndo & Heq).
-    destruct (data_rt d data Hmd) as (vd & Hgd & Hpd).
-    destruct (IHks Hlk kids Hmk) as (vk & kids' & Hgk & Hpk & Hek).
-    exists (VList [VStr t; VList va; vd; VList vk]), (Node t out data kids').
+    destruct (attrs_eqv ars ein eout attrs Henv Hnd Hla Hma Hki) as (va & out & Hga & Hpa & Hndo & Heq).
+    destruct (data_rt tags t d data Hld Hmt Hmd) as (vd & dd & Hgd & Hpd & Hde).
+    destruct (IHks Hlk attrs out kids Heq Hmk) as (vk & kids' & Hgk & Hpk & Hek).
+    exists (VList [VStr t; VAttrs va; vd; VList vk]), (Node t out dd kids').
     cbn [get put]. rewrite Hmt, Hga, Hgd, Hgk, Hpa, Hpd, Hpk.
     split; [reflexivity|]. split; [reflexivity|].
     constructor; auto. apply nodupb_NoDup. exact Hnda.
   - (* KNil *)
-    intros _ kids Hm. cbn [matches_kids] in Hm. destruct kids; [|discriminate].
+    intros _ ein eout kids _ Hm. cbn [matches_kids] in Hm. destruct kids; [|discriminate].
     exists [], []. cbn. repeat split. constructor.
   - (* KCons *)
     intros m c IHc ks IHks Hl. cbn [lossless_kids] in Hl. apply andb_true_iff in Hl. destruct Hl as [Hlc Hlk].
     specialize (IHc Hlc). specialize (IHks Hlk).
-    intros kids Hm. cbn [matches_kids] in Hm. destruct m as [|ne|u].
+    intros ein eout kids Henv Hm. cbn [matches_kids] in Hm. destruct m as [|ne|u].
     + (* MOne *)
       destruct kids as [|x rest]; [discriminate|].
       apply andb_true_iff in Hm. destruct Hm as [Hm Hmr]. apply andb_true_iff in Hm. destruct Hm as [Ht Hmx].
-      destruct (IHc x Hmx) as (v & x' & Hg & Hp & He).
-      destruct (IHks rest Hmr) as (vs & rest' & Hgr & Hpr & Her).
+      destruct (IHc ein eout x Henv Hmx) as (v & x' & Hg & Hp & He).
+      destruct (IHks ein eout rest Henv Hmr) as (vs & rest' & Hgr & Hpr & Her).
       exists (v :: vs), (x' :: rest'). cbn [get_kids put_kids]. rewrite Ht, Hg, Hgr, Hpr, Hp.
       repeat split. constructor; assumption.
     + (* MOpt *)
       destruct kids as [|x rest].
-      * destruct (IHks [] Hm) as (vs & rest' & Hgr & Hpr & Her).
+      * destruct (IHks ein eout [] Henv Hm) as (vs & rest' & Hgr & Hpr & Her).
         exists (VNone :: vs), rest'. cbn [get_kids put_kids is_vnone]. rewrite Hgr, Hpr. repeat split. exact Her.
       * destruct (tag_in c x) eqn:Ht.
         -- apply andb_true_iff in Hm. destruct Hm as [Hm Hmr]. apply andb_true_iff in Hm. destruct Hm as [Hmx _].
-           destruct (IHc x Hmx) as (v & x' & Hg & Hp & He).
-           destruct (IHks rest Hmr) as (vs & rest' & Hgr & Hpr & Her).
+           destruct (IHc ein eout x Henv Hmx) as (v & x' & Hg & Hp & He).
+           destruct (IHks ein eout rest Henv Hmr) as (vs & rest' & Hgr & Hpr & Her).
            exists (v :: vs), (x' :: rest'). cbn [get_kids put_kids]. rewrite Ht, Hg, Hgr, Hpr, Hp.
            rewrite (get_not_vnone _ _ _ Hg). repeat split. constructor; assumption.
-        -- destruct (IHks (x :: rest) Hm) as (vs & rest' & Hgr & Hpr & Her).
+        -- destruct (IHks ein eout (x :: rest) Henv Hm) as (vs & rest' & Hgr & Hpr & Her).
            exists (VNone :: vs), rest'. cbn [get_kids put_kids is_vnone]. rewrite Ht, Hgr, Hpr. repeat split. exact Her.
     + (* MList *)
       destruct (span (tag_in c) kids) as [pre rest] eqn:Es.
       apply andb_true_iff in Hm. destruct Hm as [Hm Hmr]. apply andb_true_iff in Hm. destruct Hm as [Hmp _].
-      destruct (list_lens c pre IHc Hmp) as (vl & pre' & Hg & Hp & He).
-      destruct (IHks rest Hmr) as (vs & rest' & Hgr & Hpr & Her).
+      destruct (list_lens c ein eout pre Henv IHc Hmp) as (vl & pre' & Hg & Hp & He).
+      destruct (IHks ein eout rest Henv Hmr) as (vs & rest' & Hgr & Hpr & Her).
       exists (VList vl :: vs), (pre' ++ rest'). cbn [get_kids put_kids]. rewrite Es, Hg, Hgr, Hpr, Hp.
       repeat split. rewrite (span_app _ _ _ _ Es). apply Forall2_app; assumption.
 Qed.
 
-(* FULL STATEMENT (proved): for every schema s with lossless s = true and every node n of
-   the documented shape, fromProtocolTreeNode succeeds, toProtocolTreeNode succeeds and
-   the result is n up to decimal normalisation of attribute values. *)
-Theorem lens_get_put_thm : forall sc n,
-  lossless sc = true -> matches sc n = true ->
-  exists v n', get sc n = Some v /\ put sc v = Some n' /\ neqv n' n.
-Proof. intros sc n Hl Hm. exact (proj1 lens_all sc Hl n Hm). Qed.
+Lemma env_rel_nil : env_rel [] [].
+Proof. intros k. reflexivity. Qed.
 
-(* what ~ means for attributes, spelled out (used by the refutation lemmas) *)
-Lemma neqv_attr n' n key : neqv n' n ->
+(* FULL STATEMENT (proved): for every payload lens PL that is lossless on its payload domain,
+   every schema s with lossless s = true and every node n of the documented shape,
+   fromProtocolTreeNode succeeds, toProtocolTreeNode succeeds and the result is n up to
+   decimal normalisation of attribute values and payload equivalence on <proto> data. *)
+Theorem lens_get_put_thm : forall sc n,
+  lossless sc = true -> matches PL sc [] n = true ->
+  exists v n', get PL sc n = Some v /\ put PL sc [] v = Some n' /\ neqv PL n' n.
+Proof. intros sc n Hl Hm. exact (proj1 lens_all sc Hl [] [] n env_rel_nil Hm). Qed.
+
+(* what ~ means, spelled out (used by the refutation lemmas) *)
+Lemma neqv_attr n' n key : neqv PL n' n ->
   oa_eqvb (lookup key (node_attrs n')) (lookup key (node_attrs n)) = true.
 Proof. intros H. destruct H. cbn [node_attrs]. auto. Qed.
 
-Lemma neqv_tag n' n : neqv n' n -> node_tag n' = node_tag n.
+Lemma neqv_tag n' n : neqv PL n' n -> node_tag n' = node_tag n.
 Proof. intros H. destruct H. reflexivity. Qed.
 
-Lemma neqv_data n' n : neqv n' n -> node_data n' = node_data n.
-Proof. intros H. destruct H. reflexivity. Qed.
-
-Lemma neqv_kids n' n : neqv n' n -> Forall2 neqv (node_kids n') (node_kids n).
+Lemma neqv_data n' n : neqv PL n' n -> deqv PL (node_tag n) (node_data n') (node_data n).
 Proof. intros H. destruct H. assumption. Qed.
 
-Lemma neqv_nkids n' n : neqv n' n -> length (node_kids n') = length (node_kids n).
+Lemma neqv_kids n' n : neqv PL n' n -> Forall2 (neqv PL) (node_kids n') (node_kids n).
+Proof. intros H. destruct H. assumption. Qed.
+
+Lemma neqv_nkids n' n : neqv PL n' n -> length (node_kids n') = length (node_kids n).
 Proof.
   intros H. apply neqv_kids in H. induction H; cbn [length]; [reflexivity | f_equal; assumption].
 Qed.
+
+End Lens.
 
 (* ================================================================== survives the codec *)
 (* put produces codec-well-formed nodes, for every schema whose computed codec_safe flag holds
@@ -363,144 +484,212 @@ Proof.
   destruct (mem x l) eqn:E; [apply mem_In in E; contradiction | reflexivity].
 Qed.
 
-Lemma put_attr_shape r v l : put_attr r v = Some l ->
+Lemma put_attr_shape r env v l : put_attr r env v = Some l ->
   l = [] \/ exists a, l = [(a_name r, a)].
 Proof.
-  unfold put_attr. destruct (conv_out (a_conv r) v) as [a|]; [|discriminate].
+  unfold put_attr. destruct (conv_out_e (a_conv r) env v) as [a|]; [|discriminate].
   destruct (emits (a_emit r) v); intros H; apply Some_inj in H; subst l; [right; eauto | left; reflexivity].
 Qed.
 
-Lemma put_attrs_keys rs : forall vs a, put_attrs rs vs = Some a ->
+Lemma put_attrs_keys rs env : forall vs a, put_attrs rs env vs = Some a ->
   forall k, In k (map fst a) -> In k (names rs).
 Proof.
   induction rs as [|r rs IH]; intros [|v vs] a H k Hk; cbn [put_attrs] in H; try discriminate.
   - apply Some_inj in H. subst a. contradiction.
-  - destruct (put_attr r v) as [l|] eqn:E1; [|discriminate].
-    destruct (put_attrs rs vs) as [rest|] eqn:E2; [|discriminate].
+  - destruct (put_attr r env v) as [l|] eqn:E1; [|discriminate].
+    destruct (put_attrs rs env vs) as [rest|] eqn:E2; [|discriminate].
     apply Some_inj in H. subst a. rewrite map_app, in_app_iff in Hk. cbn [names map].
     destruct Hk as [Hk|Hk].
-    + destruct (put_attr_shape _ _ _ E1) as [El|[a El]]; subst l; [contradiction|].
+    + destruct (put_attr_shape _ _ _ _ E1) as [El|[a El]]; subst l; [contradiction|].
       cbn [map fst In] in Hk. destruct Hk as [Hk|[]]. left. exact Hk.
     + right. exact (IH _ _ E2 _ Hk).
 Qed.
 
-Lemma put_attrs_nodup rs : forall vs a, NoDup (names rs) -> put_attrs rs vs = Some a ->
+Lemma put_attrs_nodup rs env : forall vs a, NoDup (names rs) -> put_attrs rs env vs = Some a ->
   NoDup (map fst a).
 Proof.
   induction rs as [|r rs IH]; intros [|v vs] a Hnd H; cbn [put_attrs] in H; try discriminate.
   - apply Some_inj in H. subst a. constructor.
-  - destruct (put_attr r v) as [l|] eqn:E1; [|discriminate].
-    destruct (put_attrs rs vs) as [rest|] eqn:E2; [|discriminate].
+  - destruct (put_attr r env v) as [l|] eqn:E1; [|discriminate].
+    destruct (put_attrs rs env vs) as [rest|] eqn:E2; [|discriminate].
     apply Some_inj in H. subst a. cbn [names map] in Hnd. apply NoDup_cons_iff in Hnd. destruct Hnd as [Hni Hnd].
     specialize (IH _ _ Hnd E2).
-    destruct (put_attr_shape _ _ _ E1) as [El|[a El]]; subst l; [exact IH|].
+    destruct (put_attr_shape _ _ _ _ E1) as [El|[a El]]; subst l; [exact IH|].
     cbn [List.app map fst]. constructor; [|exact IH].
-    intros I. apply (put_attrs_keys _ _ _ E2) in I. exact (Hni I).
+    intros I. apply (put_attrs_keys _ _ _ _ E2) in I. exact (Hni I).
 Qed.
 
-Lemma put_attrs_wf rs : forall vs a, put_attrs rs vs = Some a -> attr_vals_wf rs vs = true ->
-  forallb attr_wf a = true.
+Lemma lookup_In k l v : lookup k l = Some v -> exists k', In (k', v) l.
 Proof.
-  induction rs as [|r rs IH]; intros [|v vs] a H Hw; cbn [put_attrs] in H; try discriminate.
+  induction l as [|[k' v'] l IH]; cbn [lookup]; [discriminate|].
+  destruct (str_eqb k k').
+  - intros H. apply Some_inj in H. subst v'. exists k'. left. reflexivity.
+  - intros H. destruct (IH H) as [k'' I]. exists k''. right. exact I.
+Qed.
+
+Lemma put_attr_wf r env v l : forallb attr_wf env = true -> arule_safe r = true ->
+  put_attr r env v = Some l -> attr_val_wf r v = true -> forallb attr_wf l = true.
+Proof.
+  intros Henv Hs Hp Hw. destruct (not_parent (a_conv r)) eqn:Enp.
+  - unfold attr_val_wf in Hw. unfold put_attr in Hp, Hw.
+    rewrite (conv_out_e_np _ _ _ Enp) in Hp. rewrite (conv_out_e_np _ _ _ Enp) in Hw.
+    destruct (a_conv r); try discriminate Enp; rewrite Hp in Hw; exact Hw.
+  - destruct (a_conv r) as [| | | | | | | | | |k] eqn:Ec; try discriminate Enp.
+    unfold put_attr in Hp. rewrite Ec in Hp. cbn [conv_out_e] in Hp.
+    destruct (lookup k env) as [a|] eqn:El; [|discriminate].
+    apply Some_inj in Hp. subst l. destruct (emits (a_emit r) v); [|reflexivity].
+    cbn [forallb]. rewrite andb_true_r. unfold attr_wf. cbn [fst snd].
+    unfold arule_safe in Hs. apply andb_true_iff in Hs. destruct Hs as [Hs _]. rewrite Hs. cbn [andb].
+    destruct (lookup_In _ _ _ El) as [k' I]. rewrite forallb_forall in Henv. specialize (Henv _ I).
+    unfold attr_wf in Henv. cbn [fst snd] in Henv. apply andb_true_iff in Henv. destruct Henv as [_ Henv]. exact Henv.
+Qed.
+
+Lemma put_attrs_wf rs env : forallb attr_wf env = true -> forallb arule_safe rs = true ->
+  forall vs a, put_attrs rs env vs = Some a -> attr_vals_wf rs vs = true -> forallb attr_wf a = true.
+Proof.
+  intros Henv. induction rs as [|r rs IH]; intros Hs [|v vs] a H Hw; cbn [put_attrs] in H; try discriminate.
   - apply Some_inj in H. subst a. reflexivity.
-  - destruct (put_attr r v) as [l|] eqn:E1; [|discriminate].
-    destruct (put_attrs rs vs) as [rest|] eqn:E2; [|discriminate].
+  - destruct (put_attr r env v) as [l|] eqn:E1; [|discriminate].
+    destruct (put_attrs rs env vs) as [rest|] eqn:E2; [|discriminate].
     apply Some_inj in H. subst a. cbn [attr_vals_wf] in Hw. apply andb_true_iff in Hw. destruct Hw as [Hw1 Hw2].
-    unfold attr_val_wf in Hw1. rewrite E1 in Hw1. rewrite forallb_app, Hw1. exact (IH _ _ E2 Hw2).
-Qed.
-
-Lemma put_inv tags ars d ks v n : put (SNode tags ars d ks) v = Some n ->
-  exists t va vd vk a dd kk,
-    v = VList [VStr t; VList va; vd; VList vk] /\ mem t tags = true /\
-    put_attrs ars va = Some a /\ put_data d vd = Some dd /\ put_kids ks vk = Some kk /\
-    n = Node t a dd kk.
-Proof.
-  cbn [put]. intros H.
-  destruct v as [| | | | |l]; try discriminate H.
-  destruct l as [|v0 l]; try discriminate H. destruct v0 as [|t| | | |]; try discriminate H.
-  destruct l as [|v1 l]; try discriminate H. destruct v1 as [| | | | |va]; try discriminate H.
-  destruct l as [|vd l]; try discriminate H.
-  destruct l as [|v3 l]; try discriminate H. destruct v3 as [| | | | |vk]; try discriminate H.
-  destruct l; try discriminate H.
-  destruct (mem t tags) eqn:Et; [|discriminate H].
-  destruct (put_attrs ars va) as [a|] eqn:Ea; [|discriminate H].
-  destruct (put_data d vd) as [dd|] eqn:Ed; [|discriminate H].
-  destruct (put_kids ks vk) as [kk|] eqn:Ek; [|discriminate H].
-  apply Some_inj in H. exists t, va, vd, vk, a, dd, kk. repeat split; auto.
-Qed.
-
-Definition putwf_ok (c : schema) : Prop :=
-  forall v n, put c v = Some n -> val_wf c v = true -> codec_wf n = true.
-
-Definition putwf_ok_kids (ks : krules) : Prop :=
-  forall vs kids, put_kids ks vs = Some kids -> vals_wf ks vs = true ->
-                  forallb codec_wf kids = true.
-
-Lemma list_putwf c : putwf_ok c -> forall l xs, mapM (put c) l = Some xs ->
-  forallb (val_wf c) l = true -> forallb codec_wf xs = true.
-Proof.
-  intros Hc. induction l as [|v l IH]; intros xs H Hw; cbn [mapM] in H.
-  - apply Some_inj in H. subst xs. reflexivity.
-  - destruct (put c v) as [x|] eqn:E1; [|discriminate]. destruct (mapM (put c) l) as [ys|] eqn:E2; [|discriminate].
-    apply Some_inj in H. subst xs. cbn [forallb] in Hw |- *. apply andb_true_iff in Hw. destruct Hw as [Hw1 Hw2].
-    rewrite (Hc _ _ E1 Hw1), (IH _ eq_refl Hw2). reflexivity.
+    cbn [forallb] in Hs. apply andb_true_iff in Hs. destruct Hs as [Hs1 Hs2].
+    rewrite forallb_app, (put_attr_wf _ _ _ _ Henv Hs1 E1 Hw1). exact (IH Hs2 _ _ E2 Hw2).
 Qed.
 
 Lemma mem_forallb (f : str -> bool) t l : mem t l = true -> forallb f l = true -> f t = true.
 Proof. intros Hm Hf. apply mem_In in Hm. rewrite forallb_forall in Hf. auto. Qed.
+
+Section PutWf.
+Variable PL : paylens.
+
+Lemma put_inv tags ars d ks env v n : put PL (SNode tags ars d ks) env v = Some n ->
+  exists t va vd vk a dd kk,
+    v = VList [VStr t; VAttrs va; vd; VList vk] /\ tag_ok tags t = true /\
+    put_attrs ars env va = Some a /\ put_data PL d vd = Some dd /\ put_kids PL ks a vk = Some kk /\
+    n = Node t a dd kk.
+Proof.
+  cbn [put]. intros H.
+  destruct v as [| | | | | |l]; try discriminate H.
+  destruct l as [|v0 l]; try discriminate H. destruct v0 as [|t| | | | |]; try discriminate H.
+  destruct l as [|v1 l]; try discriminate H. destruct v1 as [| | | |va| |]; try discriminate H.
+  destruct l as [|vd l]; try discriminate H.
+  destruct l as [|v3 l]; try discriminate H. destruct v3 as [| | | | | |vk]; try discriminate H.
+  destruct l; try discriminate H.
+  destruct (tag_ok tags t) eqn:Et; [|discriminate H].
+  destruct (put_attrs ars env va) as [a|] eqn:Ea; [|discriminate H].
+  destruct (put_data PL d vd) as [dd|] eqn:Ed; [|discriminate H].
+  destruct (put_kids PL ks a vk) as [kk|] eqn:Ek; [|discriminate H].
+  apply Some_inj in H. exists t, va, vd, vk, a, dd, kk. repeat split; auto.
+Qed.
+
+Lemma put_data_wf d vd dd : drule_safe d = true -> data_val_wf PL vd = true ->
+  put_data PL d vd = Some dd -> content_wf dd [] = true.
+Proof.
+  intros Hs Hw H. destruct d; cbn [put_data] in H.
+  - apply Some_inj in H. subst dd. reflexivity.
+  - destruct vd; try discriminate H; apply Some_inj in H; subst dd; [reflexivity | exact Hw].
+  - destruct vd; try discriminate H; apply Some_inj in H; subst dd. exact Hw.
+  - destruct vd; try discriminate H. destruct (is_nil b); [discriminate H|]. apply Some_inj in H. subst dd. exact Hw.
+  - destruct vd; try discriminate H. destruct (n <? 256) eqn:E; [|discriminate H]. apply Some_inj in H. subst dd.
+    cbn [content_wf is_nil negb bytes_ok forallb]. rewrite E. reflexivity.
+  - destruct vd; try discriminate H. destruct (n <? 4294967296) eqn:E; [|discriminate H]. apply Some_inj in H. subst dd.
+    cbn [content_wf]. rewrite (be32_wf _ E). reflexivity.
+  - apply Some_inj in H. subst dd. cbn [drule_safe] in Hs. exact Hs.
+  - destruct vd; try discriminate H. cbn [data_val_wf] in Hw.
+    destruct (pl_put PL a) as [b|]; [|discriminate H]. apply Some_inj in H. subst dd. exact Hw.
+Qed.
+
+Definition putwf_ok (c : schema) : Prop :=
+  forall env v n, forallb attr_wf env = true -> put PL c env v = Some n -> val_wf PL c v = true ->
+                  codec_wf n = true.
+
+Definition putwf_ok_kids (ks : krules) : Prop :=
+  forall env vs kids, forallb attr_wf env = true -> put_kids PL ks env vs = Some kids ->
+                      vals_wf PL ks vs = true -> forallb codec_wf kids = true.
+
+Lemma list_putwf c env : forallb attr_wf env = true -> putwf_ok c ->
+  forall l xs, mapM (put PL c env) l = Some xs ->
+  forallb (val_wf PL c) l = true -> forallb codec_wf xs = true.
+Proof.
+  intros Henv Hc. induction l as [|v l IH]; intros xs H Hw; cbn [mapM] in H.
+  - apply Some_inj in H. subst xs. reflexivity.
+  - destruct (put PL c env v) as [x|] eqn:E1; [|discriminate]. destruct (mapM (put PL c env) l) as [ys|] eqn:E2; [|discriminate].
+    apply Some_inj in H. subst xs. cbn [forallb] in Hw |- *. apply andb_true_iff in Hw. destruct Hw as [Hw1 Hw2].
+    rewrite (Hc _ _ _ Henv E1 Hw1), (IH _ eq_refl Hw2). reflexivity.
+Qed.
 
 Lemma putwf_all :
   (forall c, codec_safe c = true -> putwf_ok c) /\
   (forall ks, codec_safe_kids ks = true -> putwf_ok_kids ks).
 Proof.
   apply schema_krules_ind.
-  - intros tags ars d ks IHks Hs v n Hp Hw. cbn [codec_safe] in Hs.
+  - intros tags ars d ks IHks Hs env v n Henv Hp Hw. cbn [codec_safe] in Hs.
     apply andb_true_iff in Hs. destruct Hs as [Hs Hsk].
+    apply andb_true_iff in Hs. destruct Hs as [Hs Hds].
     apply andb_true_iff in Hs. destruct Hs as [Hs Hdk].
-    apply andb_true_iff in Hs. destruct Hs as [Hs _].
+    apply andb_true_iff in Hs. destruct Hs as [Hs Hars].
     apply andb_true_iff in Hs. destruct Hs as [Htags Hnd].
-    destruct (put_inv _ _ _ _ _ _ Hp) as (t & va & vd & vk & a & dd & kk & Ev & Et & Ea & Ed & Ek & En).
+    destruct (put_inv _ _ _ _ _ _ _ Hp) as (t & va & vd & vk & a & dd & kk & Ev & Et & Ea & Ed & Ek & En).
     subst v n. cbn [val_wf] in Hw.
-    apply andb_true_iff in Hw. destruct Hw as [Hw Hwk]. apply andb_true_iff in Hw. destruct Hw as [Hwa Hwd].
+    apply andb_true_iff in Hw. destruct Hw as [Hw Hwk]. apply andb_true_iff in Hw. destruct Hw as [Hw Hwd].
+    apply andb_true_iff in Hw. destruct Hw as [Hwt Hwa].
+    pose proof (put_attrs_wf _ _ Henv Hars _ _ Ea Hwa) as Hawf.
     cbn [codec_wf].
-    rewrite (mem_forallb _ _ _ Et Htags).
-    rewrite (NoDup_nodupb _ (put_attrs_nodup _ _ _ (nodupb_NoDup _ Hnd) Ea)).
-    rewrite (put_attrs_wf _ _ _ Ea Hwa).
-    rewrite (IHks Hsk _ _ Ek Hwk). rewrite !andb_true_r. cbn [andb].
+    assert (Htw : str_wf t = true).
+    { unfold tag_ok in Et. destruct (is_nil tags) eqn:En.
+      - cbn [negb orb] in Hwt. exact Hwt.
+      - cbn [orb] in Et. exact (mem_forallb _ _ _ Et Htags). }
+    rewrite Htw.
+    rewrite (NoDup_nodupb _ (put_attrs_nodup _ _ _ _ (nodupb_NoDup _ Hnd) Ea)).
+    rewrite Hawf.
+    rewrite (IHks Hsk _ _ _ Hawf Ek Hwk). rewrite !andb_true_r. cbn [andb].
     (* content: data xor children *)
-    destruct d.
-    + cbn [put_data] in Ed. apply Some_inj in Ed. subst dd. reflexivity.
-    + destruct ks; [|discriminate Hdk]. cbn [put_kids] in Ek. destruct vk; [|discriminate Ek].
-      apply Some_inj in Ek. subst kk.
-      destruct vd; cbn [put_data] in Ed; try discriminate Ed; apply Some_inj in Ed; subst dd; [reflexivity|].
-      cbn [content_wf]. exact Hwd.
-    + destruct ks; [|discriminate Hdk]. cbn [put_kids] in Ek. destruct vk; [|discriminate Ek].
-      apply Some_inj in Ek. subst kk.
-      destruct vd; cbn [put_data] in Ed; try discriminate Ed; apply Some_inj in Ed; subst dd.
-      cbn [content_wf]. exact Hwd.
-  - intros _ vs kids H _. cbn [put_kids] in H. destruct vs; [|discriminate]. apply Some_inj in H. subst. reflexivity.
-  - intros m c IHc ks IHks Hs vs kids H Hw. cbn [codec_safe_kids] in Hs.
+    destruct d;
+      [ cbn [put_data] in Ed; apply Some_inj in Ed; subst dd; reflexivity | .. ];
+      (destruct ks; [|discriminate Hdk]; cbn [put_kids] in Ek; destruct vk; [|discriminate Ek];
+       apply Some_inj in Ek; subst kk; exact (put_data_wf _ _ _ Hds Hwd Ed)).
+  - intros _ env vs kids _ H _. cbn [put_kids] in H. destruct vs; [|discriminate]. apply Some_inj in H. subst. reflexivity.
+  - intros m c IHc ks IHks Hs env vs kids Henv H Hw. cbn [codec_safe_kids] in Hs.
     apply andb_true_iff in Hs. destruct Hs as [Hsc Hsk]. specialize (IHc Hsc). specialize (IHks Hsk).
     cbn [put_kids] in H. destruct vs as [|v vs]; [discriminate|].
-    destruct (put_kids ks vs) as [rest|] eqn:Er; [|discriminate].
+    destruct (put_kids PL ks env vs) as [rest|] eqn:Er; [|discriminate].
     cbn [vals_wf] in Hw. apply andb_true_iff in Hw. destruct Hw as [Hw1 Hw2].
-    specialize (IHks _ _ Er Hw2).
+    specialize (IHks _ _ _ Henv Er Hw2).
     destruct m as [|ne|u].
-    + destruct (put c v) as [x|] eqn:Ex; [|discriminate]. apply Some_inj in H. subst kids.
+    + destruct (put PL c env v) as [x|] eqn:Ex; [|discriminate]. apply Some_inj in H. subst kids.
       cbn [forallb]. rewrite IHks, andb_true_r.
       destruct (is_vnone v) eqn:Ev.
       * destruct v; try discriminate Ev. destruct c. cbn [put] in Ex. discriminate Ex.
-      * exact (IHc _ _ Ex Hw1).
+      * exact (IHc _ _ _ Henv Ex Hw1).
     + destruct (is_vnone v) eqn:Ev.
       * apply Some_inj in H. subst kids. exact IHks.
-      * destruct (put c v) as [x|] eqn:Ex; [|discriminate]. apply Some_inj in H. subst kids.
-        cbn [forallb]. rewrite IHks, andb_true_r. exact (IHc _ _ Ex Hw1).
-    + destruct v as [| | | | |l]; try discriminate H.
-      destruct (mapM (put c) l) as [xs|] eqn:Ex; [|discriminate]. apply Some_inj in H. subst kids.
-      rewrite forallb_app, IHks, andb_true_r. exact (list_putwf c IHc l xs Ex Hw1).
+      * destruct (put PL c env v) as [x|] eqn:Ex; [|discriminate]. apply Some_inj in H. subst kids.
+        cbn [forallb]. rewrite IHks, andb_true_r. exact (IHc _ _ _ Henv Ex Hw1).
+    + destruct v as [| | | | | |l]; try discriminate H.
+      destruct (mapM (put PL c env) l) as [xs|] eqn:Ex; [|discriminate]. apply Some_inj in H. subst kids.
+      rewrite forallb_app, IHks, andb_true_r. exact (list_putwf c env Henv IHc l xs Ex Hw1).
 Qed.
 
 (* FULL STATEMENT (proved): *)
 Theorem put_wf_thm : forall sc v n,
-  codec_safe sc = true -> val_wf sc v = true -> put sc v = Some n -> codec_wf n = true.
-Proof. intros sc v n Hs Hw Hp. exact (proj1 putwf_all sc Hs v n Hp Hw). Qed.
+  codec_safe sc = true -> val_wf PL sc v = true -> put PL sc [] v = Some n -> codec_wf n = true.
+Proof. intros sc v n Hs Hw Hp. exact (proj1 putwf_all sc Hs [] v n eq_refl Hp Hw). Qed.
+
+End PutWf.
+
+(* ================================================================== instances of the payload lens *)
+(* the ideal payload lens satisfies the hypothesis (non-vacuity of pl_lossless), and with it
+   ~ is strict: data reproduced byte for byte everywhere *)
+Lemma pl_id_lossless : pl_lossless pl_id.
+Proof. intros b _. exists b, b. repeat split. Qed.
+
+Lemma deqv_id_eq t d' d : deqv pl_id t d' d -> d' = d.
+Proof.
+  intros [H|[_ (b' & b & E1 & E2 & E3)]]; [exact H|]. cbn in E3. subst. reflexivity.
+Qed.
+
+(* payload-free schemas: the statement holds without any assumption on payloads, with strict ~ *)
+Theorem lens_get_put_strict_thm : forall sc n,
+  lossless sc = true -> matches pl_id sc [] n = true ->
+  exists v n', get pl_id sc n = Some v /\ put pl_id sc [] v = Some n' /\ neqv pl_id n' n.
+Proof. exact (lens_get_put_thm pl_id pl_id_lossless). Qed.
